@@ -37,6 +37,8 @@ pub enum ArgTy {
     RefI64,
     MutI64,
     OptI64,
+    /// `rt::TracedDbg`: its `Debug` impl uses the tracing API itself (enters a local span, adds an event)
+    Traced,
 }
 
 #[derive(Clone, Copy, Debug, Serialize, Deserialize, PartialEq)]
@@ -133,6 +135,7 @@ fn spec() -> BoxedStrategy<FnSpec> {
         2 => Just(ArgTy::RefI64),
         2 => Just(ArgTy::MutI64),
         1 => Just(ArgTy::OptI64),
+        2 => Just(ArgTy::Traced),
     ];
     let ret = prop_oneof![3 => Just(Ret::I64), 2 => Just(Ret::Res), 2 => Just(Ret::Opt), 1 => Just(Ret::Unit), 1 => Just(Ret::Str)];
     let key = prop_oneof![3 => "[a-z][a-z0-9_.]{0,8}", 1 => Just("ключ".to_string()), 1 => Just("k 😀".to_string()), 1 => Just("".to_string())];
@@ -164,7 +167,7 @@ fn spec() -> BoxedStrategy<FnSpec> {
         let mut body = body;
         if matches!(kind, Kind::BoxPinTail | Kind::AsyncBoxPin) {
             // the returned future must be 'static: by-value arguments only, no nested traced calls
-            args.retain(|a| matches!(a, ArgTy::I64 | ArgTy::U8 | ArgTy::Bool | ArgTy::OptI64));
+            args.retain(|a| matches!(a, ArgTy::I64 | ArgTy::U8 | ArgTy::Bool | ArgTy::OptI64 | ArgTy::Traced));
             fn strip(b: &mut Vec<Stmt>) {
                 b.retain(|s| !matches!(s, Stmt::Call(_)));
                 for s in b.iter_mut() {
@@ -208,6 +211,7 @@ fn ty(t: ArgTy, lt: &str) -> String {
         ArgTy::RefI64 => format!("&{}i64", lt),
         ArgTy::MutI64 => "&mut i64".into(),
         ArgTy::OptI64 => "Option<i64>".into(),
+        ArgTy::Traced => "rt::TracedDbg".into(),
     }
 }
 
@@ -220,6 +224,7 @@ fn as_i64(t: ArgTy, name: &str) -> String {
         ArgTy::RefI64 => format!("(*{})", name),
         ArgTy::MutI64 => format!("(*{})", name),
         ArgTy::OptI64 => format!("{}.unwrap_or(-1)", name),
+        ArgTy::Traced => format!("{}.0", name),
     }
 }
 
@@ -326,6 +331,7 @@ fn render_body(s: &FnSpec, stmts: &[Stmt], out: &mut String, ind: usize, nfuncs_
                                 args.push(format!("&mut t{}_{}", c, i));
                             }
                             ArgTy::OptI64 => args.push("Some(acc.rem_euclid(4))".into()),
+                            ArgTy::Traced => args.push("rt::TracedDbg(acc.rem_euclid(9))".into()),
                         }
                     }
                     out.push_str(&pre);
@@ -545,6 +551,7 @@ fn render_driver(s: &FnSpec) -> String {
                 muts.push(format!("m{}", i));
             }
             ArgTy::OptI64 => call_args.push(format!("if inp.ints[{}] % 3 == 0 {{ None }} else {{ Some(inp.ints[{}]) }}", i, i)),
+            ArgTy::Traced => call_args.push(format!("rt::TracedDbg(inp.ints[{}])", i)),
         }
     }
     let recv = match s.kind {
@@ -574,6 +581,10 @@ fn render_driver(s: &FnSpec) -> String {
                 // the factory call completes here; the future it returns is polled elsewhere
                 let _ = writeln!(out, "            let inner = rt::drive(fut, &mut polls);");
                 let _ = writeln!(out, "            let r = rt::drive_elsewhere(inner, &mut polls);");
+            } else if matches!(s.kind, Kind::AsyncTrait | Kind::BoxPinTail) && !s.eop && s.id % 2 == 0 {
+                // a function returning a boxed future starts its span with the call, under the
+                // caller's context; the future is polled at another place
+                let _ = writeln!(out, "            let r = rt::drive_elsewhere(fut, &mut polls);");
             } else {
                 let _ = writeln!(out, "            let r = rt::drive(fut, &mut polls);");
             }
@@ -598,6 +609,7 @@ fn render_driver(s: &FnSpec) -> String {
             ArgTy::RefI64 => format!("let a{} = &inp.ints[{}];", i, i),
             ArgTy::MutI64 => format!("let mut m{} = inp.ints[{}]; let a{} = &mut m{};", i, i, i, i),
             ArgTy::OptI64 => format!("let a{} = if inp.ints[{}] % 3 == 0 {{ None }} else {{ Some(inp.ints[{}]) }};", i, i, i),
+            ArgTy::Traced => format!("let a{} = rt::TracedDbg(inp.ints[{}]);", i, i),
         };
         let _ = writeln!(out, "    {}", e);
     }
